@@ -29,7 +29,11 @@ type c02Stats struct {
 	DecSteps int
 	IntTaken int
 	BothPan  int
+	// HookFailures: steps in which the WDM hook panicked in both interpreters and the step was made again
+	HookFailures int
 }
+
+const c02HookFailure = "c02: the WDM hook failed"
 
 const interruptNMI = 2 // value of the unexported interruptNMI constant in both packages
 
@@ -70,12 +74,23 @@ func c02Run(c *c02Case, synth *rig.Synth, nextAction func() string, stats *c02St
 	if c.WdmIrq {
 		// installed on the singletons (forks copy them and keep calling the CPU the hook was made for, which is then
 		// out of use: so the hook targets whichever CPU is current)
+		// ... and fails (panics) the first time the operand ends in binary 11: the caller recovers, puts the registers
+		// back and steps again
+		priFailed, altFailed := false, false
 		p0.C.OnWDM = func(b byte) {
+			if b&3 == 3 && !priFailed {
+				priFailed = true
+				panic(c02HookFailure)
+			}
 			if b&1 == 1 {
 				pri.TriggerIRQ()
 			}
 		}
 		a0.C.OnWDM = func(b byte) {
+			if b&3 == 3 && !altFailed {
+				altFailed = true
+				panic(c02HookFailure)
+			}
 			if b&1 == 1 {
 				alt.TriggerIRQ()
 			}
@@ -165,8 +180,20 @@ func c02Run(c *c02Case, synth *rig.Synth, nextAction func() string, stats *c02St
 				}
 			}
 			m1.Log = m1.Log[:0]
+			preRaw := pri.Raw()
 			c1, s1, p1 := pri.Step()
 			c2, s2, p2 := alt.Step()
+			if p1 == c02HookFailure && p2 == c02HookFailure {
+				// the hook failed in both; the caller puts the registers back to what they were and steps again
+				pri.SoftLoadRaw(preRaw)
+				alt.SoftLoadRaw(preRaw)
+				if stats != nil {
+					stats.HookFailures++
+				}
+				m1.Log = m1.Log[:0]
+				c1, s1, p1 = pri.Step()
+				c2, s2, p2 = alt.Step()
+			}
 			if synth != nil {
 				synth.NoteAccess(m1.Log)
 			}
@@ -339,6 +366,7 @@ func TestC02(t *testing.T) {
 				dec += int64(st.DecSteps)
 				ints += int64(st.IntTaken)
 				bothPan += int64(st.BothPan)
+				ev.ClassN("step-made-again-after-the-WDM-hook-panicked", int64(st.HookFailures))
 				for _, a := range c.Actions {
 					if a != "step" {
 						ev.Class("action/" + a)
